@@ -14,6 +14,7 @@ import (
 
 	goatorepo "github.com/avos-io/goat/gen/goatorepo"
 	"github.com/avos-io/goat/internal"
+	"github.com/avos-io/goat/internal/verifhook"
 	"github.com/avos-io/goat/types"
 	spb "google.golang.org/genproto/googleapis/rpc/status"
 )
@@ -84,6 +85,7 @@ func (rm *RpcMultiplexer) CallUnaryMethod(
 
 	respChan := make(chan *goatorepo.Rpc, 1)
 
+	verifhook.At("mux.register.window", streamId)
 	rm.registerHandler(streamId, respChan)
 	defer rm.unregisterHandler(streamId)
 
@@ -144,6 +146,7 @@ func (rm *RpcMultiplexer) NewStreamReadWriter(
 	streamId := atomic.AddUint64(&rm.streamCounter, 1)
 
 	respChan := make(chan *goatorepo.Rpc, 1)
+	verifhook.At("mux.register.window", streamId)
 	rm.registerHandler(streamId, respChan)
 
 	teardown := func() {
@@ -187,6 +190,7 @@ func (rm *RpcMultiplexer) readLoop() error {
 			return err
 		}
 
+		verifhook.At("mux.beforeDispatch", rpc.GetId())
 		rm.handleResponse(rpc)
 	}
 }
